@@ -21,7 +21,13 @@ _EXC = {"ValueError": ValueError, "KeyError": KeyError, "RuntimeError": RuntimeE
 
 
 def task(spec: dict, *extra: Any) -> Any:
-    """ A pure function of its arguments; fails as its spec says """
+    """ A pure function of its arguments; fails as its spec says.  Its running time exists only on the
+        simulated clock: inside a simulated worker the pool accounts for it, and when the call is made
+        directly in the calling process the clock is advanced here, so that time passes either way """
+    from sim.world import simpool
+    sched = simpool.CURRENT
+    if sched is not None and not sched.in_worker and spec.get("ms") is not None:
+        sched.now += float(spec["ms"]) / 1000.0 + (3600.0 if spec.get("stall") else 0.0)
     if spec.get("raise"):
         raise _EXC[spec["raise"]](f"task {spec['i']} failed")
     if spec.get("unpicklable_result"):
